@@ -15,8 +15,8 @@ class C06(Spec):
                   "the implementation against an independent in-harness sorted map.")
     level_note = ("goleveldb/memdb/badger internals are not modelled: the model is the ordered map the property names; "
                   "Badger is driven without 0xff bytes and without empty stored keys; iterators are not interleaved with writes; "
-                  "two residual Badger deviations (fresh iterator already positioned, reverse Seek with an empty target) are mirrored by "
-                  "the model and reported as findings, the scan theorems do not cover them.")
+                  "one residual Badger deviation (first Next of a fresh reverse iterator acts as Rewind) is mirrored by "
+                  "the model and reported as a finding, the scan theorems do not cover it.")
     assumptions = (
         "goleveldb / memdb / badger storage engines behave as the ordered map of the model (this is what the differential run checks)",
         "an open iterator is never interleaved with writes (snapshot vs. live iteration is not distinguished)",
